@@ -76,6 +76,12 @@ def added(inp_stripped, out):
     return {str(k): v for k, v in a.items()}, {str(k): v for k, v in b.items()}
 
 
+def _heavy(smi):
+    from rdkit import Chem
+    m = Chem.MolFromSmiles(smi)
+    return m.GetNumHeavyAtoms() if m is not None else 99
+
+
 def run(ctx):
     from rdkit import RDLogger
     RDLogger.DisableLog("rdApp.*")
@@ -104,6 +110,11 @@ def run(ctx):
     dbs = [d["smiles"] for d in RuleBasedMethod("id", "reaction", "reaction").rules if "." not in d["smiles"] and d["smiles"] not in ("[H]", "[O]")]
     for _ in range(12 if ctx.quick() else 150):
         extra = rng.sample(dbs, rng.randint(2, 3))
+        # (the composition solver -- the real one and the Coq model alike -- searches the database exhaustively, and its cost grows
+        # exponentially with the size of the deficit: 10 heavy atoms cost ~5 min per batch of 16 spellings in Coq, 14 more than 30 min; the
+        # heaviest compounds are dropped until at most 8 heavy atoms are missing -- no further random draw, so every other base is unchanged)
+        while len(extra) > 1 and sum(_heavy(x) for x in extra) > 8:
+            extra.remove(max(extra, key=_heavy))
         core = rng.choice(["CC(=O)O", "CCO", "c1ccccc1", "CCN", "CC(C)=O"])
         fixed.append(".".join([core] + extra) + ">>" + core)
     fb = pipe.run_batches([fixed[i:i + 12] for i in range(0, len(fixed), 12)])
